@@ -194,6 +194,35 @@ def emission_sites(prog: Program) -> List[Emission]:
     return out
 
 
+def _starred_element_values(fn: Fn, expr, k: int) -> Optional[Set[str]]:
+    """Strings that element *k* of the sequence *expr* may be: *expr* folds to a sequence, or is a lookup (by an unknown
+    key) in a foldable table of sequences, or a conditional between such."""
+    if isinstance(expr, ast.IfExp):
+        a, b = _starred_element_values(fn, expr.body, k), _starred_element_values(fn, expr.orelse, k)
+        return None if a is None or b is None else a | b
+    v = fold_in_fn(expr, fn, default=None)
+    if isinstance(v, (tuple, list)):
+        rows = [v]
+    elif isinstance(expr, ast.Subscript):
+        t = fold_in_fn(expr.value, fn, default=None)
+        rows = list(t.values()) if isinstance(t, dict) else list(t) if isinstance(t, (tuple, list)) else None
+        if not rows:
+            return None
+    elif isinstance(expr, ast.Call) and isinstance(expr.func, ast.Attribute) and expr.func.attr == "get" and expr.args:
+        t = fold_in_fn(expr.func.value, fn, default=None)
+        if not isinstance(t, dict) or not t or len(expr.args) != 1:
+            return None
+        rows = list(t.values())
+    else:
+        return None
+    out: Set[str] = set()
+    for r in rows:
+        if not isinstance(r, (tuple, list)) or k >= len(r) or not isinstance(r[k], str):
+            return None
+        out.add(r[k])
+    return out
+
+
 def param_value_sets(prog: Program, fn: Fn, pname: str, depth=0) -> Optional[Set[str]]:
     """Union over resolved call sites of the string values passed for parameter *pname*."""
     cg = callgraph(prog)
@@ -212,6 +241,16 @@ def param_value_sets(prog: Program, fn: Fn, pname: str, depth=0) -> Optional[Set
         if not isinstance(call, ast.Call):
             return None
         arg = None
+        star = next((i for i, a in enumerate(call.args) if isinstance(a, ast.Starred)), None)
+        if star is not None and star <= idx:
+            # f(*TABLE[key]) / f(*row): the parameter takes one element of every sequence the starred value may be
+            if any(isinstance(a, ast.Starred) for a in call.args[star + 1:]):
+                return None
+            v = _starred_element_values(c.caller, call.args[star].value, idx - star)
+            if v is None:
+                return None
+            vals |= v
+            continue
         if idx < len(call.args):
             arg = call.args[idx]
         else:
